@@ -3,6 +3,7 @@
 package crypto
 
 import (
+	"bytes"
 	"crypto/rand"
 	"crypto/sha256"
 	"encoding/binary"
@@ -168,16 +169,18 @@ func (s *SessionKey) Decrypt(ciphertext []byte) ([]byte, error) {
 	// Verify nonce is in expected range (optional, helps detect replay/reorder)
 	s.mu.Lock()
 	expectedNonce := s.buildRecvNonce()
+	// The direction prefix must be the one the other end sends with; a message
+	// reflected back to its own sender carries our send prefix and is rejected.
+	if !bytes.Equal(nonce[:4], expectedNonce[:4]) {
+		s.mu.Unlock()
+		return nil, fmt.Errorf("nonce direction mismatch")
+	}
 	// Allow some slack for out-of-order delivery (up to 1024 messages ahead)
 	nonceValue := binary.BigEndian.Uint64(nonce[4:])
 	expectedValue := binary.BigEndian.Uint64(expectedNonce[4:])
 	if nonceValue < expectedValue {
 		s.mu.Unlock()
 		return nil, fmt.Errorf("nonce too old: received %d, expected >= %d", nonceValue, expectedValue)
-	}
-	// Update expected nonce if this one is higher
-	if nonceValue >= s.recvNonce {
-		s.recvNonce = nonceValue + 1
 	}
 	s.mu.Unlock()
 
@@ -190,6 +193,17 @@ func (s *SessionKey) Decrypt(ciphertext []byte) ([]byte, error) {
 	if err != nil {
 		return nil, fmt.Errorf("decrypt: %w", err)
 	}
+
+	// Only an authenticated message may advance the receive window, so a forged
+	// counter can neither block later genuine messages nor wrap the window.
+	s.mu.Lock()
+	if nonceValue < s.recvNonce {
+		// A concurrent Decrypt accepted this or a later message meanwhile.
+		s.mu.Unlock()
+		return nil, fmt.Errorf("nonce too old: received %d, expected >= %d", nonceValue, s.recvNonce)
+	}
+	s.recvNonce = nonceValue + 1
+	s.mu.Unlock()
 
 	return plaintext, nil
 }
